@@ -256,8 +256,12 @@ func runC19(ctx *core.Ctx) {
 			continue
 		}
 		nm := ev.Params[0]
+		// "the term starts with s": HasPrefix(term, s) or the found result of CutPrefix(term, s)
 		bang := func(s string) func(ssa.Value) bool {
-			return isCallOf([]string{"strings.HasPrefix"}, isVal(nm), isConstStr(s))
+			return func(v ssa.Value) bool {
+				x, k, ok := hasPrefixTest(v)
+				return ok && x == ssa.Value(nm) && k == s
+			}
 		}
 		k := 0
 		for _, c := range eg.Calls(ssax.FuncName(interp)) {
@@ -278,10 +282,12 @@ func runC19(ctx *core.Ctx) {
 				okFact := hasFact(facts, false, bang("!"))
 				ctx.Check(okArg && okFact, "B3", key, c.Pos(), "want=true call: whole term (%v) and only when it does not start with '!' (%v)", okArg, okFact)
 			} else {
-				sl, ok := c.Call.Args[0].(*ssa.Slice)
-				okArg := ok && sl.X == ssa.Value(nm) && sl.High == nil && isConstIntV(1)(orZero(sl.Low))
+				arg := c.Call.Args[0]
+				wx, wn, ok := withoutPrefix(arg)
+				okArg := ok && wx == ssa.Value(nm) && wn == 1
 				okFact := hasFact(facts, true, bang("!"))
-				nonEmpty := cmpFact(facts, token.GTR, isLenOf(nm), isConstIntV(1)) || cmpFact(facts, token.GEQ, isLenOf(nm), isConstIntV(2))
+				nonEmpty := cmpFact(facts, token.GTR, isLenOf(nm), isConstIntV(1)) || cmpFact(facts, token.GEQ, isLenOf(nm), isConstIntV(2)) ||
+					cmpFact(facts, token.NEQ, isVal(arg), isConstStr("")) || cmpFact(facts, token.GTR, isLenOf(arg), isConstIntV(0)) || cmpFact(facts, token.GEQ, isLenOf(arg), isConstIntV(1))
 				ctx.Check(okArg && okFact && nonEmpty, "B3", key, c.Pos(), "want=false call: term without its '!' (%v), only when it starts with '!' (%v) and is longer than \"!\" (%v)", okArg, okFact, nonEmpty)
 			}
 		}
@@ -375,6 +381,47 @@ func runC19(ctx *core.Ctx) {
 			}
 			return false
 		}
+		// the line verdict may also be one call: slices.ContainsFunc(terms, func(t) bool { return evaluator(t, ...) })
+		isExistsTerm := func(v ssa.Value) bool {
+			c, ok := v.(*ssa.Call)
+			if !ok || !strings.HasPrefix(ssax.CalleeName(&c.Call), "slices.ContainsFunc") || len(c.Call.Args) != 2 {
+				return false
+			}
+			var fn *ssa.Function
+			switch x := c.Call.Args[1].(type) {
+			case *ssa.MakeClosure:
+				fn, _ = x.Fn.(*ssa.Function)
+			case *ssa.Function:
+				fn = x
+			}
+			if fn == nil || len(fn.Blocks) == 0 || len(fn.Params) != 1 {
+				return false
+			}
+			n := 0
+			for _, r := range graph(p, fn).Returns() {
+				rc, isC := ssax.ReturnValues(r)[0].(*ssa.Call)
+				if !isC || len(rc.Call.Args) == 0 || rc.Call.Args[0] != ssa.Value(fn.Params[0]) {
+					return false
+				}
+				isEv := false
+				for _, ev := range evals {
+					if rc.Call.StaticCallee() == ev {
+						isEv = true
+					}
+				}
+				if !isEv {
+					return false
+				}
+				n++
+			}
+			return n > 0
+		}
+		var existsCalls []*ssa.Call
+		sg.Instrs(func(i ssa.Instruction) {
+			if c, ok := i.(*ssa.Call); ok && isExistsTerm(c) {
+				existsCalls = append(existsCalls, c)
+			}
+		})
 		lineWeb := map[*ssa.Phi]bool{}
 		var boolPhis []*ssa.Phi
 		sg.Instrs(func(i ssa.Instruction) {
@@ -477,7 +524,7 @@ func runC19(ctx *core.Ctx) {
 					// false: because the line verdict is false, or because it already was false
 					found := false
 					for _, f := range facts {
-						if !f.Val && (inWeb(f.Cond, lineWeb) || inWeb(f.Cond, phis)) {
+						if !f.Val && (inWeb(f.Cond, lineWeb) || inWeb(f.Cond, phis) || isExistsTerm(f.Cond)) {
 							found = true
 						}
 					}
@@ -487,6 +534,17 @@ func runC19(ctx *core.Ctx) {
 				}
 			}
 			ctx.Check(okAll, "B3", "imports.ShouldBuild#verdict", r.Pos(), "overall verdict starts true and only ever becomes false when a line verdict is false %s", why)
+			if okWebVal == nil && len(existsCalls) > 0 {
+				// the line verdict is computed afresh for each line by one call
+				okTerms := true
+				for _, ec := range existsCalls {
+					if !cmpFact(sg.FactsAtInstr(ec), token.EQL, anyVal, isConstStr("+build")) {
+						okTerms = false
+					}
+				}
+				ctx.Check(okTerms, "B3", "imports.ShouldBuild#line-verdict", existsCalls[0].Pos(), "a +build line is satisfied only by a matching term (slices.ContainsFunc over its terms with the evaluator as predicate), asked under the \"+build\" test")
+				ctx.OK("B3", "imports.ShouldBuild#line-verdict-reset", existsCalls[0].Pos(), "the line verdict is the result of one call per +build line; nothing is carried over from the previous line")
+			}
 			if okWebVal != nil {
 				_, ll := phiWeb(okWebVal)
 				lineOK := true
@@ -601,11 +659,17 @@ func runC19(ctx *core.Ctx) {
 		n := 0
 		g.Instrs(func(i ssa.Instruction) {
 			b, ok := i.(*ssa.BinOp)
-			if !ok || b.Op != token.EQL || !isConstStr("+build")(b.Y) {
+			if !ok || (b.Op != token.EQL && b.Op != token.NEQ) {
+				return
+			}
+			word := b.X
+			if isConstStr("+build")(b.X) {
+				word = b.Y
+			} else if !isConstStr("+build")(b.Y) {
 				return
 			}
 			n++
-			fields := ssax.DerivedFrom(b.X, isCallOf([]string{"strings.Fields", "bytes.Fields"}), nil)
+			fields := ssax.DerivedFrom(word, isCallOf([]string{"strings.Fields", "bytes.Fields"}), nil)
 			ctx.Check(fields, "B9", "imports.ShouldBuild#tokens"+itoa(n), b.Pos(), "the word compared with \"+build\" is a field of strings.Fields")
 		})
 		if n == 0 {
@@ -615,7 +679,7 @@ func runC19(ctx *core.Ctx) {
 	if interp != nil {
 		g := graph(p, interp)
 		n := 0
-		for _, c := range g.Calls("unicode.IsLetter", "unicode.IsDigit") {
+		check := func(c *ssa.Call, viaFunc bool) {
 			n++
 			ranged := false
 			if e, ok := c.Call.Args[0].(*ssa.Extract); ok {
@@ -623,7 +687,29 @@ func runC19(ctx *core.Ctx) {
 					ranged = true
 				}
 			}
+			// ... or the rune parameter of a predicate handed to a strings function that decodes runes
+			if prm, ok := c.Call.Args[0].(*ssa.Parameter); ok && viaFunc && types.Identical(prm.Type(), types.Typ[types.Rune]) {
+				ranged = true
+			}
 			ctx.Check(ranged, "B2b", shortFn(interp)+"#rune"+itoa(n), c.Pos(), "the character classified is a rune produced by ranging over the tag")
+		}
+		for _, c := range g.Calls("unicode.IsLetter", "unicode.IsDigit") {
+			check(c, false)
+		}
+		for _, fc := range g.Calls("strings.ContainsFunc", "strings.IndexFunc", "strings.LastIndexFunc", "strings.TrimFunc", "strings.FieldsFunc") {
+			var fn *ssa.Function
+			switch x := fc.Call.Args[1].(type) {
+			case *ssa.MakeClosure:
+				fn, _ = x.Fn.(*ssa.Function)
+			case *ssa.Function:
+				fn = x
+			}
+			if fn == nil || len(fn.Blocks) == 0 {
+				continue
+			}
+			for _, c := range graph(p, fn).Calls("unicode.IsLetter", "unicode.IsDigit") {
+				check(c, true)
+			}
 		}
 	}
 	// ---- B5: the known-OS and known-architecture tables
